@@ -1,3 +1,296 @@
-//! spec -> code replay (filled in later)
+//! spec -> code: executes behaviours printed by TLC (spec/Replay.tla) on the real API and
+//! compares the projected state after every action.
+//!
+//! A behaviour is over abstract labels 0,1,2..; it is replayed under several label maps
+//! (bytes incl. 0x00/0x01/0xFF for the byte-wise automaton, characters of UTF-8 widths 1-4 for
+//! the char-wise one, offsets scaled by the widths), both construction entry points, two
+//! num_free_blocks settings, slice and byte-iterator entry points.
 use std::collections::HashMap;
-pub fn main(_a: &HashMap<String, String>) -> i32 { 2 }
+use std::io::{BufRead, BufReader, Seek, SeekFrom, Write};
+use std::panic::{catch_unwind, AssertUnwindSafe};
+use std::rc::Rc;
+
+use serde_json::{json, Value};
+
+use crate::pma::*;
+
+struct LabelMap {
+    name: &'static str,
+    var: Var,
+    map: [u32; 4],
+}
+
+const MAPS: &[LabelMap] = &[
+    LabelMap { name: "bytes-00-01-ff", var: Var::B, map: [0x00, 0x01, 0xff, 0x80] },
+    LabelMap { name: "bytes-61-ff-80", var: Var::B, map: [0x61, 0xff, 0x80, 0x00] },
+    LabelMap { name: "chars-w1-w2-w3", var: Var::C, map: [0x61, 0xe9, 0x4e16, 0x1f600] },
+    LabelMap { name: "chars-w3-w4-w1", var: Var::C, map: [0x4e16, 0x1f600, 0x00, 0x7ff] },
+];
+
+fn width(var: Var, l: u32) -> usize {
+    match var {
+        Var::B => 1,
+        Var::C => char::from_u32(l).unwrap().len_utf8(),
+    }
+}
+
+fn seq_of(v: &Value) -> Vec<u32> {
+    v.as_array().map_or(vec![], |a| a.iter().map(|x| x.as_u64().unwrap() as u32).collect())
+}
+
+// values used for the pattern/value entry point: repeated values, 0 and MAX
+const VALS: [u64; 6] = [5, 5, 0, u64::MAX, 7, 5];
+
+struct Out {
+    mismatches: Vec<Value>,
+    executions: u64,
+}
+
+fn tags_for(method: &str, kind: &str, var: Var, entry: &str, nfb: u32) -> Vec<&'static str> {
+    let mut t = vec![match (method, kind) {
+        ("ov", _) => "C01",
+        ("find", _) => "C02",
+        ("nosuf", _) => "C05",
+        ("lm", "LL") => "C03",
+        _ => "C04",
+    }];
+    t.push("C06");
+    t.push("C07");
+    t.push("C14");
+    if var == Var::C {
+        t.push("C08");
+    }
+    if entry == "iter" {
+        t.push("C12");
+    }
+    if nfb != 16 {
+        t.push("C11");
+    }
+    t
+}
+
+fn replay_search(idx: u64, b: &Value, prop: &str, out: &mut Out) {
+    let kind_s = b["kind"].as_str().unwrap();
+    let kind = Kind::parse(kind_s);
+    let pats: Vec<Vec<u32>> = b["pats"].as_array().unwrap().iter().map(seq_of).collect();
+    let hay = seq_of(&b["hay"]);
+    for (mi, lm) in MAPS.iter().enumerate() {
+        if prop == "C08" && lm.var != Var::C {
+            continue;
+        }
+        let cpats: Vec<Pat> = pats.iter().map(|p| p.iter().map(|&l| lm.map[l as usize]).collect()).collect();
+        let chay: Vec<u32> = hay.iter().map(|&l| lm.map[l as usize]).collect();
+        // byte offset of each label position
+        let mut off = vec![0usize];
+        for &l in &chay {
+            off.push(off.last().unwrap() + width(lm.var, l));
+        }
+        let mut hbytes = vec![];
+        for &l in &chay {
+            hbytes.extend_from_slice(&pat_bytes(lm.var, &vec![l]));
+        }
+        let hbytes = Rc::new(hbytes);
+        let with_values = (idx as usize + mi) % 2 == 1;
+        let nfb = if (idx as usize / 2 + mi) % 2 == 0 { 1 } else { 16 };
+        let spec = BuildSpec {
+            var: lm.var,
+            kind,
+            entry: if with_values { "with_values" } else { "new" },
+            via_builder: true,
+            nfb,
+            pats: cpats,
+        };
+        let vals: Vec<u64> = (0..pats.len()).map(|i| VALS[i % VALS.len()]).collect();
+        out.executions += 1;
+        let (outcome, pma) = build::<u64>(&spec, &vals);
+        let cfg = json!({"map": lm.name, "var": lm.var.s(), "entry": spec.entry, "nfb": nfb});
+        let Some(pma) = pma else {
+            out.mismatches.push(json!({"idx": idx, "tags": ["C10", "C01", "C02", "C03", "C04", "C05", "C06", "C08", "C11", "C12", "C15"],
+                "what": "build of a valid collection failed", "cfg": cfg, "got": outcome, "behaviour": b}));
+            continue;
+        };
+        let ns = b["num_states"].as_u64().unwrap() as usize;
+        if pma.num_states() != ns {
+            out.mismatches.push(json!({"idx": idx, "tags": ["C15"], "what": "num_states", "cfg": cfg,
+                "expected": ns, "got": pma.num_states(), "behaviour": b}));
+        }
+        let valstr = |i: u64| -> String {
+            if with_values {
+                VALS[(i as usize - 1) % VALS.len()].to_string()
+            } else {
+                (i - 1).to_string()
+            }
+        };
+        // second automaton for C09/C14 style checks: a serialisation round trip
+        let restored = if prop == "C09" {
+            let bytes = pma.serialize();
+            Some(Pma::<u64>::deserialize(lm.var, &bytes).0)
+        } else {
+            None
+        };
+        for method in kind.methods() {
+            let exp: Vec<(i64, i64, String)> = b["res"][*method]
+                .as_array()
+                .unwrap()
+                .iter()
+                .map(|m| {
+                    let m = m.as_array().unwrap();
+                    (
+                        off[m[0].as_u64().unwrap() as usize] as i64,
+                        off[m[1].as_u64().unwrap() as usize] as i64,
+                        valstr(m[2].as_u64().unwrap()),
+                    )
+                })
+                .collect();
+            for entry in ["slice", "iter"] {
+                if entry == "iter" && *method == "lm" {
+                    continue;
+                }
+                let targets: Vec<(&Pma<u64>, bool)> = match &restored {
+                    Some(r) => vec![(&pma, false), (r, true)],
+                    None => vec![(&pma, false)],
+                };
+                for (p, is_restored) in targets {
+                    out.executions += 1;
+                    let cap = (hbytes.len() + 1) * 64 + 16;
+                    let (ms, pulled, probes, hops, capped) = p.search_all(method, entry, &hbytes, cap);
+                    let got: Vec<(i64, i64, String)> = ms.iter().map(|m| (m.s, m.e, m.v.clone())).collect();
+                    let mut tags = tags_for(method, kind_s, lm.var, entry, nfb);
+                    if is_restored {
+                        tags.push("C09");
+                    }
+                    if got != exp || capped {
+                        out.mismatches.push(json!({"idx": idx, "tags": tags, "what": "search result",
+                            "cfg": cfg, "method": method, "entry": entry, "restored": is_restored,
+                            "expected": exp, "got": got, "capped": capped, "behaviour": b}));
+                        continue;
+                    }
+                    if entry == "iter" {
+                        let lazy = ms.iter().all(|m| m.pulled == m.e) && pulled == hbytes.len() as i64;
+                        if !lazy {
+                            out.mismatches.push(json!({"idx": idx, "tags": ["C12"], "what": "laziness",
+                                "cfg": cfg, "method": method,
+                                "got": ms.iter().map(|m| json!([m.e, m.pulled])).collect::<Vec<_>>(),
+                                "final_pulled": pulled, "behaviour": b}));
+                        }
+                    }
+                    if kind == Kind::Std {
+                        let n = hbytes.len() as u64;
+                        let linear = probes <= 2 * n && hops <= n && ms.iter().all(|m| m.probes <= 2 * m.e as u64);
+                        if !linear {
+                            out.mismatches.push(json!({"idx": idx, "tags": ["C13"], "what": "2n bound",
+                                "cfg": cfg, "method": method, "probes": probes, "hops": hops, "n": n,
+                                "behaviour": b}));
+                        }
+                    }
+                }
+            }
+        }
+    }
+}
+
+fn replay_build(idx: u64, b: &Value, out: &mut Out) {
+    let kind = Kind::parse(b["kind"].as_str().unwrap());
+    let pats: Vec<Vec<u32>> = b["pats"].as_array().unwrap().iter().map(seq_of).collect();
+    let allowed: Vec<String> =
+        b["allowed"].as_array().unwrap().iter().map(|x| x.as_str().unwrap().to_string()).collect();
+    for lm in MAPS {
+        let cpats: Vec<Pat> = pats.iter().map(|p| p.iter().map(|&l| lm.map[l as usize]).collect()).collect();
+        for (entry, via_builder) in [("new", true), ("with_values", true), ("new", false), ("with_values", false)] {
+            if !via_builder && kind != Kind::Std {
+                continue;
+            }
+            let spec = BuildSpec { var: lm.var, kind, entry, via_builder, nfb: if via_builder { 2 } else { 16 }, pats: cpats.clone() };
+            let vals: Vec<u64> = (0..pats.len()).map(|i| VALS[i % VALS.len()]).collect();
+            out.executions += 1;
+            let (outcome, _) = build::<u64>(&spec, &vals);
+            if !allowed.contains(&outcome) {
+                out.mismatches.push(json!({"idx": idx, "tags": ["C10"], "what": "construction outcome",
+                    "cfg": {"map": lm.name, "var": lm.var.s(), "entry": entry, "api": if via_builder {"builder"} else {"type"}},
+                    "expected_one_of": allowed, "got": outcome, "behaviour": b}));
+            }
+        }
+    }
+}
+
+fn child(a: &HashMap<String, String>) -> i32 {
+    std::panic::set_hook(Box::new(|_| {}));
+    let from: u64 = a["from"].parse().unwrap();
+    let prop = a.get("prop").cloned().unwrap_or_default();
+    let f = std::fs::File::open(&a["in"]).unwrap();
+    let mut outf = std::fs::OpenOptions::new().append(true).create(true).open(&a["out"]).unwrap();
+    let mut cur = std::fs::OpenOptions::new().write(true).create(true).open(format!("{}.cur", a["out"])).unwrap();
+    let mut out = Out { mismatches: vec![], executions: 0 };
+    let mut n = 0u64;
+    daachorse::verif_hooks::set_hop_limit(1_000_000);
+    for (idx, line) in BufReader::new(f).lines().map_while(Result::ok).enumerate() {
+        let idx = idx as u64;
+        if idx < from {
+            continue;
+        }
+        cur.seek(SeekFrom::Start(0)).unwrap();
+        write!(cur, "{:020}", idx).unwrap();
+        let b: Value = match serde_json::from_str(&line) {
+            Ok(v) => v,
+            Err(_) => continue,
+        };
+        n += 1;
+        let r = catch_unwind(AssertUnwindSafe(|| match b["t"].as_str() {
+            Some("search") => {
+                if prop != "C10" {
+                    replay_search(idx, &b, &prop, &mut out)
+                } else {
+                    // a valid collection must build
+                    replay_build(idx, &json!({"kind": b["kind"], "pats": b["pats"], "allowed": ["ok"]}), &mut out)
+                }
+            }
+            Some("build") => {
+                if matches!(prop.as_str(), "C10" | "") {
+                    replay_build(idx, &b, &mut out)
+                }
+            }
+            _ => {}
+        }));
+        if let Err(e) = r {
+            out.mismatches.push(json!({"idx": idx, "tags": ["*"], "what": format!("panic: {}", panic_msg(e)), "behaviour": b}));
+        }
+        for m in out.mismatches.drain(..) {
+            writeln!(outf, "{}", m).unwrap();
+        }
+    }
+    writeln!(outf, "{}", json!({"done": true, "behaviours": n, "executions": out.executions})).unwrap();
+    0
+}
+
+pub fn main(a: &HashMap<String, String>) -> i32 {
+    if a.contains_key("from") {
+        return child(a);
+    }
+    let _ = std::fs::remove_file(&a["out"]);
+    let exe = std::env::current_exe().unwrap();
+    let mut from = 0u64;
+    let mut crashes = 0;
+    loop {
+        let mut args = vec!["replay".to_string(), "--in".into(), a["in"].clone(), "--out".into(), a["out"].clone(), "--from".into(), from.to_string()];
+        if let Some(p) = a.get("prop") {
+            args.push("--prop".into());
+            args.push(p.clone());
+        }
+        let st = std::process::Command::new(&exe).args(&args).stderr(std::process::Stdio::piped()).output().expect("spawn");
+        if st.status.success() {
+            return 0;
+        }
+        crashes += 1;
+        let cur: u64 = std::fs::read_to_string(format!("{}.cur", a["out"])).ok().and_then(|s| s.trim().parse().ok()).unwrap_or(from);
+        let stderr = String::from_utf8_lossy(&st.stderr);
+        let why: String = stderr.lines().rev().take(4).collect::<Vec<_>>().into_iter().rev().collect::<Vec<_>>().join(" | ");
+        let line = BufReader::new(std::fs::File::open(&a["in"]).unwrap()).lines().nth(cur as usize).and_then(Result::ok).unwrap_or_default();
+        let mut outf = std::fs::OpenOptions::new().append(true).create(true).open(&a["out"]).unwrap();
+        writeln!(outf, "{}", json!({"idx": cur, "tags": ["*"], "what": format!("abort: status {:?}: {}", st.status.code(), why),
+            "behaviour": serde_json::from_str::<Value>(&line).unwrap_or(Value::Null)})).unwrap();
+        from = cur + 1;
+        if crashes > 100 {
+            return 2;
+        }
+    }
+}
